@@ -58,6 +58,28 @@ def check(ctx, src):
     ctx.need(len(calls) >= 1, f"no call of the registered printer `{printer}` found in hy-repr")
 
     tries = [st for st in body if st.head() == "try"]
+    # the owner flag: the local that is true exactly in the call that switched _quoting on.  Either it is set to True
+    # next to the write of _quoting (under a test containing (not _quoting)), or the write is guarded by it and it is
+    # defined as a conjunction containing (not _quoting)
+    flag = None
+    flag_def_ok = False
+    for st in body:
+        if st.head() in ("when", "if"):
+            writes = [(t, v) for n in st.walk() if n.kind == "expr" and n.head() == "setv" for t, v in _setv_targets(n)]
+            if any(t.is_sym("_quoting") and v.is_sym("True") for t, v in writes):
+                cond = st.items[1]
+                others = [t.val for t, v in writes if t.kind == "sym" and not t.is_sym("_quoting") and v.is_sym("True")]
+                if cond.kind == "sym":
+                    flag = cond.val
+                    for st2 in body:
+                        if st2.head() == "setv":
+                            for t, v in _setv_targets(st2):
+                                if t.is_sym(flag) and "(not _quoting)" in v.src() and v.kind == "expr" and v.head() == "and":
+                                    flag_def_ok = True
+                elif others:
+                    flag = others[0]
+                    flag_def_ok = "(not _quoting)" in cond.src()
+    ctx.need(flag is not None, "hy-repr: the flag that records which call switched _quoting on was not recognised")
     for c in calls:
         key = f"{REL}|hy-repr|({printer} obj)"
         tr = next((t for t in tries if _inside(c, t)), None)
@@ -81,8 +103,8 @@ def check(ctx, src):
                 for t, v in _setv_targets(n):
                     if t.is_sym("_quoting") and v.is_sym("False"):
                         resets.append(n)
-        guarded = [r for r in resets if r._parent is not None and r._parent.head() in ("when", "if") and r._parent.items[1].is_sym("started-quoting")]
-        ctx.check(bool(guarded), "REPR-PROTECT", key + "|reset", "the finally does not reset _quoting under `started-quoting`", REL, fin.line,
+        guarded = [r for r in resets if r._parent is not None and r._parent.head() in ("when", "if") and r._parent.items[1].is_sym(flag)]
+        ctx.check(bool(guarded), "REPR-PROTECT", key + "|reset", f"the finally does not reset _quoting under `{flag}` (the flag of the call that switched it on)", REL, fin.line,
                   witness="after a model's printer raises, the next hy.repr of a model lacks its leading quote", detail="finally resets _quoting when started-quoting")
         unguarded = [r for r in resets if r not in guarded]
         ctx.check(not unguarded, "REPR-NEST", key + "|unguarded-reset", "_quoting is reset unconditionally, so a nested call resets the outer call's flag",
@@ -103,8 +125,9 @@ def check(ctx, src):
                 test_i = i
         if st.head() in ("when", "if") and any(n.head() == "setv" and any(t.is_sym("_quoting") for t, _ in _setv_targets(n)) for n in st.walk() if n.kind == "expr"):
             write_i = i
-        if st.head() == "setv" and any(t.is_sym("started-quoting") and v.is_sym("False") for t, v in _setv_targets(st)):
-            init_i = i
+        if st.head() == "setv" and any(t.is_sym(flag) for t, v in _setv_targets(st)):
+            if init_i is None:
+                init_i = i
     ctx.need(add_i is not None and test_i is not None, "hy-repr no longer tests/adds ids in _seen at top level (anchor vanished)")
     ctx.check(test_i < add_i < try_i, "REPR-ORDER", f"{REL}|hy-repr|test<add<try",
               "the cycle test must precede `.add _seen`, and both must precede the try", REL, body[add_i].line,
@@ -132,15 +155,15 @@ def check(ctx, src):
                         REL, st.line, witness="a model for which this form raises/returns leaves _quoting True; later reprs of models lose their quote")
         w = body[write_i]
         cond = w.items[1]
-        ctx.check("(not _quoting)" in cond.src(), "REPR-NEST", f"{REL}|hy-repr|write-guard",
+        ctx.check(flag_def_ok, "REPR-NEST", f"{REL}|hy-repr|write-guard",
                   "_quoting is set without testing (not _quoting): nested calls claim ownership of the flag", REL, w.line,
                   witness="(hy.repr '[a b]) prints ''[''a ''b]' style nested quotes or resets early", detail="guarded by (not _quoting)")
         sets = {t.val: v for n in w.walk() if n.kind == "expr" and n.head() == "setv" for t, v in _setv_targets(n) if t.kind == "sym"}
-        ctx.check(sets.get("_quoting") is not None and sets["_quoting"].is_sym("True") and sets.get("started-quoting") is not None
-                  and sets["started-quoting"].is_sym("True"), "REPR-NEST", f"{REL}|hy-repr|write-pair",
+        ctx.check(sets.get("_quoting") is not None and sets["_quoting"].is_sym("True") and (cond.is_sym(flag) or (sets.get(flag) is not None
+                  and sets[flag].is_sym("True"))), "REPR-NEST", f"{REL}|hy-repr|write-pair",
                   "_quoting := True and started-quoting := True must be set together", REL, w.line, detail="set together")
         ctx.check(init_i is not None and init_i < write_i, "REPR-NEST", f"{REL}|hy-repr|flag-init",
-                  "started-quoting is not initialised to False before the conditional write", REL, w.line, detail="initialised False")
+                  f"{flag} is not given a value before the conditional write", REL, w.line, detail="initialised False")
     else:
         ctx.need(False, "hy-repr no longer sets _quoting conditionally at top level (anchor vanished)")
 
